@@ -1,5 +1,6 @@
 import Litep2pVerif.Proofs.Conn.Loop
 import Litep2pVerif.Proofs.Conn.Permits
+import Litep2pVerif.Proofs.Conn.Established
 /-!
 # C07 — A terminated connection is reported closed to everyone exactly once
 
@@ -334,45 +335,105 @@ example :
   refine ⟨by simp [FreshRun, mgrStep, PeerState.onEstablished, PeerState.onClosed, PeerState.conns], by decide⟩
 
 /-- **One protocol having shut down does not cost the others a new connection.** With any set of
-receivers gone, under every interleaving, `report_connection_established` never returns an error
-(so `accept` never fails and the manager never rolls the connection back after some protocols were
-told); and when it returns without having been suspended every protocol whose receiver exists has
-been told. -/
+receivers gone before or going away during the call, channels full or not, under every interleaving with
+the environment (`os`: protocols and manager popping messages, dropping their receivers, channels being
+filled), `report_connection_established`
+1. never returns an error (so `accept` never fails and the manager never rolls the connection back after
+   some protocols were told);
+2. whenever it has returned — at once or after having been suspended on full channels for any length of
+   time — every protocol whose receiver exists has been told;
+3. and while it is still suspended, every live protocol it is not waiting for has been told already.
+(2 and 3 are the invariant `EstInv`, the counterpart of the close path's `CallInv`.) -/
 theorem established_survives_dead_protocol (ps : PSet) (h0 : Fresh ps) (os : List EnvOp) :
-    (os.foldl envStep (startCall ps .established)).call ≠ .result .established false ∧
-    (∀ ok, (startCall ps .established).call = .result .established ok →
-      ∀ j, aliveAt ps j → Ev.proto j .established ∈ (startCall ps .established).log) := by
+    let ps' := os.foldl envStep (startCall ps .established)
+    ps'.call ≠ .result .established false ∧
+    (∀ ok, ps'.call = .result .established ok → ∀ j, aliveAt ps' j → Ev.proto j .established ∈ ps'.log) ∧
+    (∀ w e, ps'.call = .protoSends .established w e →
+      ∀ j, aliveAt ps' j → j ∉ w → Ev.proto j .established ∈ ps'.log) := by
+  intro ps'
   have hq : quiet ps.call := h0.idle ▸ quiet_idle
   have h1 := startCall_inv ps .established h0.inv h0.wf hq
   have h2 := startCall_shape ps .established h0.inv h0.wf hq
   have h3 := envRun_rel os _ h1.1 (h0.wf.of_frame0 h1.2)
-  constructor
+  have h4 : EstInv ps' := envRun_est os _ h1.1 (h0.wf.of_frame0 h1.2) (startCall_est ps h0.wf)
+  refine ⟨?_, ?_, ?_⟩
   · intro hres
     rcases h3.2.2.2.2 _ h2.1 with ⟨w, e, hc⟩ | ⟨hk, _⟩ | ⟨ok, hc, hok⟩
     · rw [hc] at hres; cases hres
     · cases hk
-    · rw [hc] at hres; injection hres with _ h4; rw [hok rfl] at h4; cases h4
-  · intro ok hres j hj
-    simp only [startCall, progress] at hres ⊢
-    obtain ⟨sent, full, f1, f2, f3, f4, f5, f6, f7, f8, f9, _⟩ :=
-      pollSends_spec Kind.established.msg ps.order h0.wf.1
-        { ps with active := false, call := .protoSends .established ps.order false } [] false
-    rcases hr : pollSends Kind.established.msg ps.order
-        { ps with active := false, call := .protoSends .established ps.order false } [] false with ⟨ps', w', e'⟩
-    rw [hr] at f3 f4 hres
-    dsimp only at f3 f4 hres ⊢
-    simp only [List.nil_append] at f4
-    subst f4
-    cases w' with
-    | cons a t => simp at hres
-    | nil =>
-      have hjo : j ∈ ps.order := (h0.wf.2 j).mpr (by
-        obtain ⟨c, hc, _⟩ := hj; exact (List.getElem?_eq_some_iff.mp hc).1)
-      rcases f9 j hjo hj with hs | hf
-      · show Ev.proto j .established ∈ ps'.log
-        rw [f3]
-        exact List.mem_append_right _ (List.mem_map.mpr ⟨j, hs, rfl⟩)
-      · simp at hf
+    · rw [hc] at hres; injection hres with _ h5; rw [hok rfl] at h5; cases h5
+  · intro ok hres
+    unfold EstInv at h4; rw [hres] at h4; exact h4
+  · intro w e hres
+    unfold EstInv at h4; rw [hres] at h4; exact h4
+
+/-- Non-vacuity with a suspension: protocol 1 of three is gone, protocol 0's channel is full. The call is
+suspended waiting for 0 while 2 has been told (part 3); protocol 2 then shuts down as well, protocol 0
+reads: the call returns `Ok` and the one live protocol has been told (part 2). -/
+example :
+    let ps : PSet := { chans := [{ cap := 1, queue := [.filler] }, { cap := 2, alive := false }, { cap := 2 }],
+                       order := [2, 1, 0] }
+    let a := startCall ps .established
+    let b := [EnvOp.drop 2, EnvOp.recv 0].foldl envStep a
+    a.call = .protoSends .established [0] true ∧ a.log = [.proto 2 .established] ∧
+    b.call = .result .established true ∧ b.log = [.proto 2 .established, .proto 0 .established] := by decide
+
+/-- **… and the connection stays usable for the live protocols** (permit-aware loop model
+`Model/Conn/Permits.lean`, the one the real `TcpConnection::start` is driven against). For every state of
+the loop satisfying the reporting invariant (`PInv`: every state reachable from a fresh connection, see
+`tcploop_exit_reports_closed_once`) in which the loop is at its `select!`:
+1. a protocol `d` shutting down (receiver, handle, substreams dropped) leaves the loop running, every other
+   protocol `p` alive, the invariant intact and every negotiation in progress in `pending_substreams`;
+2. when afterwards (or in any running state) a negotiation ends for a LIVE protocol `p` —
+   `handle_negotiated_substream` → `report_substream_open` — the loop does not return; if `p`'s channel
+   has room the `SubstreamOpened` message is enqueued and the loop is back at its `select!`; if the channel
+   is full the loop is suspended in exactly that send (back-pressure of `p`'s own channel, nothing to do
+   with the dead protocol); either way the substream is handed to `p` (`stage = queued`) with its permits. -/
+theorem loop_usable_after_protocol_exit (s : TLoop) (hinv : PInv s.loop) (hr : s.running = true)
+    (d k p : Nat) (x : Sub) (hdp : d ≠ p) (hp : protoAlive s p = true)
+    (hk : s.subs[k]? = some x) (hx : x.stage = .negotiating) :
+    let s1 := tstep s (.dropRx d)
+    let s2 := tstep s1 (.negOk k p)
+    (s1.running = true ∧ protoAlive s1 p = true ∧ PInv s1.loop ∧ s1.subs[k]? = some x) ∧
+    s2.loop.exited = none ∧ s2.subs[k]? = some { x with proto := some p, stage := .queued } ∧
+    (hasRoom s1 p → s2.running = true ∧ s2.loop.ps.call = .idle ∧
+      s2.loop.ps.log = s1.loop.ps.log ++ [.proto p .substreamOpened]) ∧
+    (¬ hasRoom s1 p → s2.loop.cont = some .substreamReport ∧
+      s2.loop.ps.call = .protoSends (.substream p true) [p] false ∧ s2.loop.ps.log = s1.loop.ps.log) := by
+  intro s1 s2
+  obtain ⟨a1, a2, a3⟩ := dropRx_keeps_running s hinv hr d p hdp hp
+  have a4 : s1.subs[k]? = some x :=
+    negotiating_persists s (.dropRx d) k x hk hx (fun p h => by cases h) (fun h => by cases h)
+      ((running_iff _).mp a1).1
+  obtain ⟨b1, b2, b3⟩ := negOk_live s1 a1 k p x a4 hx a2
+  exact ⟨⟨a1, a2, a3, a4⟩, b1, negOk_queues s1 k p x a1 a4 hx a2 b1,
+    fun h => ⟨(b2 h).1, (b2 h).2.2, (b2 h).2.1⟩, b3⟩
+
+/-- Non-vacuity: three protocols take a connection, the remote opens a substream (negotiating), protocol 1
+shuts down; the hypotheses hold for `d = 1`, `p = 2`, `k = 0`; the negotiation ends for protocol 2, the
+message is enqueued, the loop keeps running; protocol 2 takes the substream. With protocol 2's channel
+full instead, the loop waits in that send and goes on as soon as protocol 2 reads. -/
+example :
+    let s := trun (tinit [true, true, true] 2) [.recv 0, .recv 1, .recv 2, .accept]
+    let s2 := trun s [.dropRx 1, .negOk 0 2]
+    let s3 := trun s2 [.recv 2]
+    let t := trun (tinit [true, true, true] 1) [.recv 0, .recv 1, .accept, .dropRx 1, .negOk 0 2]
+    let t2 := trun t [.recv 2]
+    PInv s.loop ∧ s.running = true ∧ protoAlive s 2 = true ∧ s.subs[0]? = some ⟨true, none, .negotiating⟩ ∧
+    hasRoom (tstep s (.dropRx 1)) 2 ∧
+    s2.running = true ∧ s2.loop.ps.log = [.proto 2 .substreamOpened] ∧ s3.subs = [⟨true, some 2, .held⟩] ∧
+    ¬ hasRoom (trun (tinit [true, true, true] 1) [.recv 0, .recv 1, .accept, .dropRx 1]) 2 ∧
+    t.loop.cont = some .substreamReport ∧ t.loop.exited = none ∧
+    t2.running = true ∧ t2.loop.ps.log = [.proto 2 .substreamOpened] := by
+  refine ⟨trun_pinv _ _ ((tinit_fresh _ _).pinv rfl rfl), by decide, by decide, by decide,
+    ⟨{ cap := 2 }, by decide, by decide⟩, by decide, by decide, by decide, ?_, by decide, by decide, by decide, by decide⟩
+  rintro ⟨c, hc, hlt⟩
+  have : c = { queue := [.established], cap := 1 } := by
+    have h : (trun (tinit [true, true, true] 1) [.recv 0, .recv 1, .accept, .dropRx 1]).loop.ps.chans[2]? =
+        some { queue := [.established], cap := 1 } := by decide
+    rw [h] at hc; cases hc; rfl
+  subst this
+  simp at hlt
 
 /-- Non-vacuity: protocol 1 of three has shut down. `accept` resolves `Ok`, protocols 0 and 2 are
 told, the loop is spawned and stays usable: a substream for protocol 2 is delivered and the loop
@@ -431,5 +492,7 @@ open Litep2pVerif.Props.C07 in
 #print axioms app_closed_iff_last
 open Litep2pVerif.Props.C07 in
 #print axioms established_survives_dead_protocol
+open Litep2pVerif.Props.C07 in
+#print axioms loop_usable_after_protocol_exit
 open Litep2pVerif.Props.C07 in
 #print axioms redial_after_close
